@@ -24,12 +24,13 @@ ASSUMPTIONS = ["pandas DataFrame.merge on one pair of partitions is the oracle-c
                "both sides are hash-partitioned with the same hash of the key (colocation, C40)"]
 LEVEL_TEXT = ("Lean 4 theorems, for all frames, all hash functions and every number of partitions: the partition-wise join "
               "after hash-partitioning both sides yields the same multiset of output rows as the global join for inner, left, "
-              "leftsemi, outer and right (hash_join_inner/left/leftsemi/outer/right; key lemmas: a left-driven join "
+              "leftsemi, outer and right (hash_join_inner/left/leftsemi/outer/right; colocated_join_eq_global: the same for ANY "
+              "classification of the keys into n classes, e.g. the intervals of aligned divisions of an index join; key lemmas: a left-driven join "
               "commutes with hash partitioning, the hash classes are a permutation of the frame); the broadcast plans "
               "(broadcast_inner_eq_global: every partition against every partition; broadcast_split_eq_global: pieces of the "
               "big side against the hash-partitioned small side) equal the global join; leftsemi_left_broadcast_refuted shows "
               "why the left side of a leftsemi join must not be broadcast (defect #21, repaired); concat_axis0_den. "
-              "VALIDATED against pandas: index joins with known divisions, suffixes, indicator, several key columns, "
+              "VALIDATED against pandas: index joins with known divisions (that repartitioning to common divisions co-locates the keys is the unproved C44 statement), suffixes, indicator, several key columns, "
               "concat axis 0/1 with interleave_partitions and join inner/outer, merge_asof (all directions).")
 LEVEL_NOTE = ("Trusted: Lean kernel + standard axioms; pandas merge kernels on one pair of partitions; HashJoinP2P needs "
               "`distributed` (absent) and is not reachable here.")
